@@ -1,5 +1,6 @@
 import TexcraftModel.Lemmas.C09
 import TexcraftModel.Lemmas.C09Trace
+import TexcraftModel.Lemmas.C09Alloc
 import TexcraftModel.Props.C06
 
 /-!
@@ -308,8 +309,84 @@ theorem xn_over_d_total (x n d : Int) (hn : n ≤ 65536) (hd : 0 < d ∧ d ≤ 6
 theorem nx_plus_y_total (x n y : Int) : C06.nxPlusY x n y ≠ .panic :=
   C06.nx_plus_y_total x n y
 
+/-- Register arithmetic (the proof-side counterpart of the "extreme register states" search): a
+`\count` or `\dimen` register that holds a 32-bit value holds one after any program of
+`\advance`, `\multiply`, `\divide` with any operands (also `-2^31 / -1`, `× 2^31-1`, …); the
+model has no crash outcome. Restated from C06. -/
+theorem register_arithmetic_total (ops : List C06.ArithOp) (a : Int) (ha : C06.inRange32 a) :
+    C06.inRange32 (C06.runReg C06.stepInt a ops).1 ∧ C06.inRange32 (C06.runReg C06.stepDimen a ops).1 :=
+  ⟨(C06.arith_program_invariant ops a ha).1, (C06.arith_program_invariant ops a ha).2.1⟩
+
 /-- `\the` of any dimension (every integer, not only legal dimensions) prints. -/
 theorem print_scaled_total (s : Int) : C06.printScaled s ≠ none :=
   C06.print_total s
+
+/-! ## Deepening round: allocation bounds, input depth, relation between the modes -/
+
+/-- Index-bound totality of `\newIntArray`: after *any* sequence of allocations (any sizes,
+names re-allocated, in any order with the accesses) every read and write through `resolve`
+indexes inside the flat storage — the run reports values, recoverable errors and fatal errors,
+never the panic of `arrays[index]`. -/
+theorem array_access_total (ops : List AOp) : AOut.panic ∉ runOps Alloc.empty ops :=
+  runOps_no_panic ops Alloc.empty WF_empty
+
+/-- … from any well-formed state (every recorded array inside the storage), and allocation and
+writing keep the state well formed. -/
+theorem array_access_total_wf (a : Alloc) (h : a.WF) (ops : List AOp) : AOut.panic ∉ runOps a ops :=
+  runOps_no_panic ops a h
+
+theorem alloc_preserves_wf (a : Alloc) (h : a.WF) (name len : Nat) : (newIntArray a name len).WF :=
+  WF_new a h name len
+
+-- non-vacuity: two arrays, an access at the last element and one past it
+example : runOps Alloc.empty [.new 0 2, .new 1 3, .write 1 2 7, .read 1 2, .read 0 (-1), .read 1 3]
+    = [.val 7, .recovered, .val 0, .fatal] := by decide
+example : runOps Alloc.empty [.new 0 0, .read 0 (-1)] = [.recovered, .fatal] := by decide
+
+/-- Mutant 29 of the sweep (`arrays.resize(len)` without the start offset) is refuted by the
+model: the second allocation truncates the storage and an in-range access panics. -/
+theorem newIntArrayBad_panics :
+    runOpsWith newIntArrayBad true Alloc.empty [.new 0 2, .new 1 7, .read 1 6] = [.panic] := by decide
+
+/-- Mutant 08 (`inner_index > array_len`): the index `len` itself is accepted. -/
+theorem resolveNonStrict_panics :
+    runOpsWith newIntArray false Alloc.empty [.new 0 0, .read 0 0] = [.panic] := by decide
+
+/-- The input stack never grows beyond the limit: starting from the one source that
+`VM::push_source` leaves on the stack, whatever `\input`s and source ends follow,
+`num_current_sources()` stays ≤ 101 (the harness checks ≤ 105 on every run). -/
+theorem input_depth_invariant (ops : List IOp) : ∀ d ∈ depths 1 ops, d + 1 ≤ 101 := by
+  intro d hd
+  have := depths_bounded ops 1 (by omega) d hd
+  omega
+
+/-- … and 100 nested `\input`s do end in the fatal error (the limit is effective). -/
+example : endsFatal 1 (List.replicate 100 .input) = true ∧ endsFatal 1 (List.replicate 99 .input) = false := by
+  decide
+
+/-- Errorstop mode stops at the first recoverable error: whatever follows it is irrelevant. -/
+theorem errorstop_first_recoverable (pre rest : List Ev) (hpre : ∀ e ∈ pre, e = .ok) :
+    run .errorstop (pre ++ .recoverable :: rest) = .err := by
+  unfold run
+  rw [runLoop_ok_prefix pre _ hpre]
+  simp [runLoop, step, vmError, hookContinues, toError, finish]
+
+/-- In scroll, nonstop and batch mode the recoverable errors of a run do not influence its
+result: it is the result of the same run with them removed (no mode switches). -/
+theorem recovering_mode_skips_recoverable (m : Mode) (hm : m ≠ .errorstop) (evs : List Ev)
+    (h : ∀ e ∈ evs, e.respects = true) (hno : ∀ e ∈ evs, ∀ m', e ≠ .setMode m') :
+    run m evs = run m (evs.filter (· ≠ .recoverable)) := by
+  rw [protocol_eq_spec m evs h,
+    protocol_eq_spec m _ (fun e he => h e (List.mem_filter.mp he).1)]
+  exact specRun_filter_recoverable m hm evs hno
+
+example : run .scroll [.ok, .recoverable, .recoverable, .fatal] = run .scroll [.ok, .fatal] := by decide
+
+/-- Why mutant m11 of the first self-test (`cases_left_to_skip >= 0` instead of `> 0`) cannot be
+detected: the two loops compute the same branch for every counter value (a counter of 0 is
+decremented to −1 and then never moves, exactly like a counter that is left at 0), and the
+decrement still happens only for `c ≥ 0`, so it cannot overflow either. -/
+theorem ifcase_ge_mutant_equivalent (c : Int) (j k : Nat) : ifcaseLoopGe c j k = ifcaseLoop c j k :=
+  ifcaseLoopGe_eq k c j
 
 end C09
